@@ -50,6 +50,17 @@ def check(ctx):
                 kinds[e["k"]] += 1
                 if e["res"] != "ok":
                     kinds["not-ok:" + e["res"][:20]] += 1
+    # wide windows: 3 readers and 3 writers over one 40-row group (overlapping long scans + whole multi-row updates)
+    for procs in (4, 16):
+        tr = os.path.join(ctx.work, "wide-p%d.ndjson" % procs)
+        vlib.vdrive(ctx, ["rm", "hist", tr, 6 if thorough else 2, 6, 150, procs], timeout=1800, ok_codes=(0, 3),
+                    env={"VERIF_SEED": str(ctx.seed * 19 + procs), "VERIF_RM_WIDE": "1"})
+        res = vlib.validate(ctx, FAM, "CallHistoryTrace", "History.cfg", tr, name="val-wide-p%d" % procs, env=DEQUE, timeout=3000)
+        judge(ctx, res, tr, "wide call histories (GOMAXPROCS=%d)" % procs)
+        for e in vlib.read_ndjson(tr):
+            tot[e["ev"]] += 1
+            if e["ev"] == "Inv":
+                kinds["wide-" + e["k"]] += 1
     for k in ("read", "upd", "ins"):
         if kinds[k] == 0:
             raise Inconclusive("vacuous: no %s calls" % k)
